@@ -795,3 +795,18 @@ Example doc_example :
   roundtrip_document vtx {| d_cells := [(None, w_m2); (None, w_m3)]; d_morphs := [w_m2; w_m2] |}
   = RtOk vtx [strip vtx w_m2; strip vtx w_m3; strip vtx w_m2; strip vtx w_m2].
 Proof. split; vm_compute; reflexivity. Qed.
+
+(* ------------------------------------------------------------------ the executable domain checks imply the hypotheses *)
+Lemma nodup_strb_sound : forall l, nodup_strb l = true -> NoDup l.
+Proof.
+  induction l as [|x l IH]; intros H; [constructor|].
+  simpl in H. apply andb_true_iff in H. destruct H as [H1 H2]. constructor; auto.
+  intros Hin. apply existsb_eqb_in in Hin. rewrite Hin in H1. discriminate.
+Qed.
+
+Lemma doc_domb_sound : forall (V : Type) (d : adoc V), doc_domb d = true -> doc_ok V d.
+Proof.
+  intros V d H. unfold doc_domb in H. apply andb_true_iff in H. destruct H as [H1 H2]. split.
+  - now apply nodup_strb_sound.
+  - intros Hin. apply existsb_eqb_in in Hin. rewrite Hin in H2. discriminate.
+Qed.
